@@ -232,6 +232,25 @@ func (s *cvServer) transport() rtFunc {
 			}
 			s.lastIncr = r
 			return reply(http.StatusOK, r)
+		case req.URL.Host == "qed.verif" && (req.URL.Path == "/events/bulk" || req.URL.Path == "/events") && req.Method == "POST":
+			// the snapshots the log issued for its first k events, k = number of events posted
+			k := 1
+			if req.URL.Path == "/events/bulk" {
+				var eb protocol.EventsBulk
+				if err := json.Unmarshal(body, &eb); err != nil {
+					return reply(http.StatusBadRequest, err.Error())
+				}
+				k = len(eb.Events)
+			}
+			var out []*protocol.Snapshot
+			for i := 0; i < k && i < len(s.log.snaps); i++ {
+				sn := s.log.snaps[i]
+				out = append(out, &protocol.Snapshot{EventDigest: sn.EventDigest, HistoryDigest: sn.HistoryDigest, HyperDigest: sn.HyperDigest, Version: sn.Version})
+			}
+			if req.URL.Path == "/events" {
+				return reply(http.StatusCreated, out[0])
+			}
+			return reply(http.StatusCreated, out)
 		case req.URL.Host == "store.verif" && req.URL.Path == "/snapshot":
 			v, err := strconv.ParseUint(req.URL.Query().Get("v"), 10, 64)
 			if err != nil || v >= uint64(len(s.log.snaps)) {
@@ -348,6 +367,40 @@ func clientvCmd(out *cq.Out, seed uint64, tier string) {
 				}
 			}
 			return uint64(rng.Intn(sp.n))
+		}
+		// insertion answers of every size come back unchanged (a bulk of hundreds of snapshots is tens of kilobytes)
+		for _, k := range []int{1, 2, 21, 22, 40, 300, 1000} {
+			if k > sp.n {
+				continue
+			}
+			evs := make([]string, k)
+			for i := range evs {
+				evs[i] = fmt.Sprintf("e%d", i)
+			}
+			var got []*protocol.Snapshot
+			var cerr error
+			c := mk()
+			class, site, msg := guarded(func() {
+				if k == 1 {
+					var one *protocol.Snapshot
+					one, cerr = c.Add(evs[0])
+					got = []*protocol.Snapshot{one}
+				} else {
+					got, cerr = c.AddBulk(evs)
+				}
+			})
+			c.Close()
+			out.Case(fmt.Sprintf("add:%d:%d", li, k), k > 1)
+			out.Count("insertion_answers", 1)
+			desc := map[string]interface{}{"seed": seed, "log": li, "events_in_bulk": k}
+			bad := class != "ok" || cerr != nil || len(got) != k
+			for i := 0; !bad && i < k; i++ {
+				sn := lg.snaps[i]
+				bad = got[i] == nil || got[i].Version != sn.Version || !bytes.Equal(got[i].EventDigest, sn.EventDigest) || !bytes.Equal(got[i].HistoryDigest, sn.HistoryDigest) || !bytes.Equal(got[i].HyperDigest, sn.HyperDigest)
+			}
+			if bad {
+				out.Violate("C13:insertion-answer-lost-on-the-wire", fmt.Sprintf("the server answered an insertion of %d events with their %d snapshots; the client returned %d snapshots / error %v (%s %s %.100s)", k, k, len(got), cerr, class, site, msg), desc)
+			}
 		}
 		for t := 0; t < sp.rounds; t++ {
 			srv.mu.Lock()
